@@ -531,6 +531,11 @@ class Densify(EnvironmentFilter):
             if self._action and 'action' in new:
                 new['action'] = self._make_dense(new['action'])
 
+            if self._action and 'actions' in new and new['actions'] != interaction['actions']:
+                for target in ['rewards','feedbacks']:
+                    if callable(new.get(target)):
+                        new[target] = DiscreteReward(new['actions'],list(map(interaction[target],interaction['actions'])))
+
             yield new
 
     def _make_dense(self, value) -> Optional[dict]:
